@@ -1,4 +1,5 @@
 import Netconan.Proofs.Secrets
+import Netconan.Proofs.CatchAll
 import Netconan.Pinned.Patterns
 /-!
 # C07 – No part of a secret survives: output is independent of secret content
@@ -54,5 +55,22 @@ def run1 (line : String) : Option String :=
   match replaceMatchingItem noExt Pinned.Patterns.formatRes groups "s".toList line.toList [] with
   | .ok (out, _, _) => some (String.ofList out)
   | .error _ => none
+
+open NoSurvival Regex in
+/-- **A standalone `$9$…` / `$1$…` value is found whatever keywords surround it**: the last two groups of the pattern
+table are the catch-all patterns (`pinned_catch_groups`), and on every line that contains – at its start or after a
+character outside `[-_a-zA-Z0-9]` – the marker `$9$` / `$1$` followed by a character that is not white space, `;` or
+`"`, `search` with that pattern does not answer "no match" (completeness of backtracking, `Proofs/RegexLang.lean`), so
+`replace_matching_item` replaces it unless an earlier group already handled the line. -/
+theorem standalone_hash_token_is_found (marker : Char) (r : Re)
+    (hr : (marker = '9' ∧ r = pinnedCatch9) ∨ (marker = '1' ∧ r = pinnedCatch1))
+    (pre rest : List Char) (c : Char) (hc : inRanges Pinned.Patterns.cs72 c = true)
+    (hprev : pre = [] ∨ ∃ c0, pre.getLast? = some c0 ∧ inRanges Pinned.Patterns.cs19 c0 = true) :
+    search r (pre ++ '$' :: marker :: '$' :: c :: rest) ≠ .ok none :=
+  catchAll_finds marker r hr pre rest c hc hprev
+
+open NoSurvival in
+theorem catch_all_groups_are_last :
+    Pinned.Patterns.secretGroups.drop 53 = [[(pinnedCatch9, some 1, none)], [(pinnedCatch1, some 1, none)]] := pinned_catch_groups
 
 end Netconan.Props.C07
